@@ -140,3 +140,167 @@ V("C10", "logout-status-skipped", "detect", "LogoutResponse status no longer che
 V("C10", "logout-decode-raw", "detect", "LogoutRequest decoded from the raw root even when verified",
   (LQ, "	err = xmlUnmarshalElement(el, decodedRequest)", "	err = xmlUnmarshalElement(doc.Root(), decodedRequest)"),
   needs="wrapped logout request")
+
+BR = "build_request.go"; BL = "build_logout_response.go"; SA = "saml.go"; UU = "uuid/uuid.go"; EA = "types/encrypted_assertion.go"; EK = "types/encrypted_key.go"; TR = "types/response.go"
+
+# ---------------- C07
+V("C07", "decrypt-after-traversal", "detect", "decryption moved after the verifying traversal on the unsigned path",
+  (DR, "	// first decrypt all assertions\n	err = sp.decryptAssertions(unverifiedResponse)\n	if err != nil {\n		return nil, err\n	}\n", ""),
+  (DR, "	err = sp.Validate(decodedResponse)\n	if err != nil {\n		return nil, err\n	}\n\n	return decodedResponse, nil\n}\n\n// DecodeUnverifiedBaseResponse",
+       "	err = sp.decryptAssertions(unverifiedResponse)\n	if err != nil {\n		return nil, err\n	}\n\n	err = sp.Validate(decodedResponse)\n	if err != nil {\n		return nil, err\n	}\n\n	return decodedResponse, nil\n}\n\n// DecodeUnverifiedBaseResponse"))
+V("C07", "recipient-check-inverted", "detect", "recipient certificate check inverted",
+  (EK, "		} else if !bytes.Equal(cert.Certificate[0], encCert) {", "		} else if bytes.Equal(cert.Certificate[0], encCert) {"))
+V("C07", "recipient-skip-on-decode-error", "detect", "undecodable recipient certificate ignored",
+  (EK, "		if encCert, err := base64.StdEncoding.DecodeString(ek.X509Data); err != nil {\n			return nil, fmt.Errorf(\"error decoding EncryptedKey certificate: %v\", err)\n		} else if",
+       "		if encCert, err := base64.StdEncoding.DecodeString(ek.X509Data); err == nil &&"),
+  (EK, "bytes.Equal(cert.Certificate[0], encCert) {\n			return nil, fmt.Errorf(\"key decryption attempted", "bytes.Equal(cert.Certificate[0], encCert) {\n			return nil, fmt.Errorf(\"key decryption attempted"))
+V("C07", "drop-notafter", "detect", "expired SP certificate accepted",
+  (DR, "			if now.Before(cert.NotBefore) || now.After(cert.NotAfter) {", "			if now.Before(cert.NotBefore) {"))
+V("C07", "window-wallclock", "detect", "SP certificate window checked against time.Now",
+  (DR, "			now := sp.Clock.Now()\n			if now.Before(cert.NotBefore)", "			now := time.Now()\n			if now.Before(cert.NotBefore)"),
+  (DR, "	\"io\"\n", "	\"io\"\n	\"time\"\n"))
+V("C07", "encrypted-parent-check-dropped", "detect", "EncryptedAssertion anywhere in the tree is decrypted",
+  (DR, "		if encryptedElement.Parent() != el {\n			return fmt.Errorf(\"found encrypted assertion with unexpected parent element: %s\", encryptedElement.Parent().Tag)\n		}\n\n", ""))
+
+# ---------------- C09
+V("C09", "assertion-index-before-check", "detect", "Assertions[0] read before the length check",
+  (RA, "	// TODO: Support multiple assertions\n	if len(response.Assertions) == 0 {\n		return nil, ErrMissingAssertion\n	}\n\n	assertion := response.Assertions[0]", "	assertion := response.Assertions[0]\n	if len(response.Assertions) == 0 {\n		return nil, ErrMissingAssertion\n	}\n"))
+V("C09", "nameid-unguarded", "detect", "NameID dereferenced without the nil check",
+  (RA, "	nameID := subject.NameID\n	if nameID == nil {\n		return nil, ErrMissingElement{Tag: NameIdTag}\n	}\n", "	nameID := subject.NameID\n"))
+V("C09", "nil-nil-return", "detect", "missing root yields (nil, nil)",
+  (DR, "	} else if signedResponseEl == nil {\n		return nil, fmt.Errorf(\"missing transformed response\")", "	} else if signedResponseEl == nil {\n		return nil, nil"))
+V("C09", "cert-len-guard-dropped", "detect", "certificate slot read without length check",
+  (EK, "	if len(cert.Certificate) < 1 {\n		return nil, fmt.Errorf(\"decryption tls.Certificate has no public certs attached\")\n	}\n", ""))
+V("C09", "gcm-guard-off-by-one", "detect", "nonce length guard weakened",
+  (EA, "		if len(data) < c.NonceSize() {", "		if len(data) < c.NonceSize()-1 {"))
+V("C09", "benign-guard-rewrite", "silent", "padding guard rewritten with the operands swapped",
+  (EA, "		if padLength > len(data) {", "		if len(data) < padLength {"))
+V("C09", "type-assert-no-ok", "detect", "unchecked type assertion on the SP key",
+  (EK, "	switch pk := cert.PrivateKey.(type) {\n	case *rsa.PrivateKey:", "	switch pk := cert.PrivateKey.(crypto.Signer).(type) {\n	case *rsa.PrivateKey:"),
+  (EK, "	\"crypto/aes\"\n", "	\"crypto\"\n	\"crypto/aes\"\n"))
+
+# ---------------- C11
+V("C11", "advertise-unhandled", "detect", "metadata advertises a method DecryptBytes cannot decrypt",
+  (SA, "				{Algorithm: types.MethodAES128CBC},\n				{Algorithm: types.MethodAES256CBC},\n			},", "				{Algorithm: types.MethodAES128CBC},\n				{Algorithm: \"http://www.w3.org/2001/04/xmlenc#aes192-cbc\"},\n				{Algorithm: types.MethodAES256CBC},\n			},"))
+V("C11", "drop-sha512", "detect", "exported digest constant no longer accepted",
+  (EK, "			case MethodSHA512:\n				h = sha512.New()\n", ""),
+  (EK, "	\"crypto/sha512\"\n", ""))
+V("C11", "detached-key-ignored", "detect", "detached EncryptedKey never used",
+  (EA, "	if ek.CipherValue == \"\" {", "	if false && ek.CipherValue == \"\" {"))
+V("C11", "pad-from-first-byte", "detect", "padding length read from the wrong byte",
+  (EA, "		padLength := int(data[len(data)-1])", "		padLength := int(data[0])"))
+V("C11", "decrypt-field-first", "detect", "decryption key precedence differs from the published certificate",
+  (DR, "	keyStore := sp.SPKeyStore\n	if sp.spKeyStoreOverride != nil {", "	keyStore := sp.SPKeyStore\n	if keyStore == nil && sp.spKeyStoreOverride != nil {"),
+  needs="both the deprecated field and the setter configured with different keys")
+V("C11", "sha256-uses-sha1", "detect", "digest identifier paired with the wrong hash",
+  (EK, "			case MethodSHA256:\n				h = sha256.New()", "			case MethodSHA256:\n				h = sha1.New()"),
+  (EK, "	\"crypto/sha256\"\n", ""))
+
+# ---------------- C12
+V("C12", "readall-direct", "detect", "inflate without LimitReader",
+  (DR, "	lr := io.LimitReader(flate.NewReader(bytes.NewReader(data)), maxSize+1)\n\n	deflated, err := io.ReadAll(lr)", "	deflated, err := io.ReadAll(flate.NewReader(bytes.NewReader(data)))"))
+V("C12", "limit-times-1024", "detect", "limit multiplied",
+  (DR, "maxSize+1)", "maxSize*1024)"))
+V("C12", "drop-length-check", "detect", "explicit length check removed",
+  (DR, "	if int64(len(deflated)) > maxSize {\n		return fmt.Errorf(\"deflated response exceeds maximum size of %d bytes\", maxSize)\n	}\n", ""))
+V("C12", "predecoder-unbounded", "detect", "pre-decoder passes a huge limit",
+  (DR, "	err = maybeDeflate(raw, defaultMaxDecompressedResponseSize, func(maybeXML []byte) error {\n		response = &types.UnverifiedBaseResponse{}", "	err = maybeDeflate(raw, 1<<62, func(maybeXML []byte) error {\n		response = &types.UnverifiedBaseResponse{}"))
+V("C12", "default-constant", "detect", "default limit changed",
+  (DR, "	defaultMaxDecompressedResponseSize = 5 * 1024 * 1024", "	defaultMaxDecompressedResponseSize = 50 * 1024 * 1024"))
+V("C12", "benign-leq", "silent", "length check written as <= with early decode",
+  (DR, "	if int64(len(deflated)) > maxSize {\n		return fmt.Errorf(\"deflated response exceeds maximum size of %d bytes\", maxSize)\n	}\n\n	return decoder(deflated)", "	if int64(len(deflated)) <= maxSize {\n		return decoder(deflated)\n	}\n\n	return fmt.Errorf(\"deflated response exceeds maximum size of %d bytes\", maxSize)"))
+
+# ---------------- C13
+V("C13", "sig-at-index-2", "detect", "signature inserted after the second child",
+  (BL, "	children = append(children, ret.Child[0])     // issuer is always first\n	children = append(children, sig)              // next is the signature\n	children = append(children, ret.Child[1:]...) // then all other children",
+       "	children = append(children, ret.Child[:2]...)\n	children = append(children, sig)\n	children = append(children, ret.Child[2:]...)"),
+  needs="IdP that schema-validates LogoutResponse")
+V("C13", "not-enveloped", "detect", "enveloped flag dropped for LogoutRequest",
+  (BR, "func (sp *SAMLServiceProvider) SignLogoutRequest(el *etree.Element) (*etree.Element, error) {\n	ctx := sp.SigningContext()\n\n	sig, err := ctx.ConstructSignature(el, true)", "func (sp *SAMLServiceProvider) SignLogoutRequest(el *etree.Element) (*etree.Element, error) {\n	ctx := sp.SigningContext()\n\n	sig, err := ctx.ConstructSignature(el, false)"))
+V("C13", "algorithm-not-applied", "detect", "configured algorithm applied only on the default-context branch",
+  (SA, "	sp.signingContext.SetSignatureMethod(sp.SignAuthnRequestsAlgorithm)\n", ""),
+  (SA, "		sp.signingContext = dsig.NewDefaultSigningContext(sp.GetSigningKey())\n", "		sp.signingContext = dsig.NewDefaultSigningContext(sp.GetSigningKey())\n		sp.signingContext.SetSignatureMethod(sp.SignAuthnRequestsAlgorithm)\n"),
+  needs="keys configured through the setters and a non-default signature algorithm")
+V("C13", "signer-precedence", "detect", "encryption setter wins over the signing field again",
+  (SA, "	if signing == nil && sp.SPSigningKeyStore == nil {", "	if signing == nil {"))
+V("C13", "cert-from-other-store", "detect", "embedded certificate taken from the encryption key store",
+  (SA, "		sp.signingContext, err = dsig.NewSigningContext(signing.Signer, [][]byte{signing.Cert})", "		cert := signing.Cert\n		if sp.spKeyStoreOverride != nil {\n			cert = sp.spKeyStoreOverride.Cert\n		}\n		sp.signingContext, err = dsig.NewSigningContext(signing.Signer, [][]byte{cert})"))
+
+# ---------------- C15
+V("C15", "drop-utc", "detect", "IssueInstant formatted in the clock's zone with a literal Z",
+  (BL, "	logoutResponse.CreateAttr(\"IssueInstant\", sp.Clock.Now().UTC().Format(issueInstantFormat))", "	logoutResponse.CreateAttr(\"IssueInstant\", sp.Clock.Now().Format(issueInstantFormat))"),
+  needs="SP clock in a non-UTC zone")
+V("C15", "logout-dest-sso", "detect", "LogoutRequest addressed to the SSO URL",
+  (BR, "	logoutRequest.CreateAttr(\"Destination\", sp.IdentityProviderSLOURL)", "	logoutRequest.CreateAttr(\"Destination\", sp.IdentityProviderSSOURL)"))
+V("C15", "issuer-fallback-inverted", "detect", "issuer fallback inverted in LogoutResponse",
+  (BL, "	if sp.ServiceProviderIssuer != \"\" {\n		logoutResponse.CreateElement(\"saml:Issuer\").SetText(sp.ServiceProviderIssuer)\n	} else {\n		logoutResponse.CreateElement(\"saml:Issuer\").SetText(sp.IdentityProviderIssuer)\n	}",
+       "	if sp.IdentityProviderIssuer != \"\" {\n		logoutResponse.CreateElement(\"saml:Issuer\").SetText(sp.IdentityProviderIssuer)\n	} else {\n		logoutResponse.CreateElement(\"saml:Issuer\").SetText(sp.ServiceProviderIssuer)\n	}"))
+V("C15", "name-from-config", "detect", "attribute name built from configuration",
+  (BR, "		nameIdPolicy.CreateAttr(\"Format\", sp.NameIdFormat)", "		nameIdPolicy.CreateAttr(\"Format\"+sp.IdentityProviderSSOBinding, sp.NameIdFormat)"))
+V("C15", "policy-before-issuer", "detect", "NameIDPolicy created before the Issuer",
+  (BR, "	nameIdPolicy := authnRequest.CreateElement(\"samlp:NameIDPolicy\")\n	nameIdPolicy.CreateAttr(\"AllowCreate\", \"true\")\n	if sp.NameIdFormat != \"\" {\n		nameIdPolicy.CreateAttr(\"Format\", sp.NameIdFormat)\n	}\n", ""),
+  (BR, "	// NOTE(russell_h): In earlier versions we mistakenly sent the IdentityProviderIssuer\n	// in the AuthnRequest. For backwards compatibility we will fall back to that\n	// behavior when ServiceProviderIssuer isn't set.\n	if sp.ServiceProviderIssuer != \"\" {\n		authnRequest.CreateElement(\"saml:Issuer\").SetText(sp.ServiceProviderIssuer)",
+       "	nameIdPolicy := authnRequest.CreateElement(\"samlp:NameIDPolicy\")\n	nameIdPolicy.CreateAttr(\"AllowCreate\", \"true\")\n	if sp.NameIdFormat != \"\" {\n		nameIdPolicy.CreateAttr(\"Format\", sp.NameIdFormat)\n	}\n	if sp.ServiceProviderIssuer != \"\" {\n		authnRequest.CreateElement(\"saml:Issuer\").SetText(sp.ServiceProviderIssuer)"))
+V("C15", "contexts-skip-first", "detect", "first requested context dropped",
+  (BR, "		for _, context := range sp.RequestedAuthnContext.Contexts {", "		for _, context := range sp.RequestedAuthnContext.Contexts[1:] {"))
+V("C15", "passive-from-forceauthn", "detect", "IsPassive emitted under the ForceAuthn flag",
+  (BR, "	if sp.IsPassive {\n		authnRequest.CreateAttr(\"IsPassive\", \"true\")", "	if sp.ForceAuthn {\n		authnRequest.CreateAttr(\"IsPassive\", \"true\")"))
+
+# ---------------- C16
+V("C16", "typed-html-field", "detect", "relay state passed as template.HTML",
+  (BL, "			URL          string\n			SAMLResponse string\n			RelayState   string\n		}{", "			URL          string\n			SAMLResponse string\n			RelayState   template.HTMLAttr\n		}{"),
+  (BL, "			RelayState:   relayState,", "			RelayState:   template.HTMLAttr(relayState),"))
+V("C16", "concat-relaystate", "detect", "relay state concatenated into the template text",
+  (BL, "			`<input type=\"hidden\" name=\"RelayState\" value=\"{{.RelayState}}\" />` +\n			`<input id=\"SAMLSubmitButton\" type=\"submit\" value=\"Continue\" />`", "			`<input type=\"hidden\" name=\"RelayState\" value=\"` + relayState + `\" />` +\n			`<input id=\"SAMLSubmitButton\" type=\"submit\" value=\"Continue\" />`"))
+V("C16", "misspelled-field", "detect", "template references a field the data lacks (run-time error on the relay-state path)",
+  (BL, "			`<input type=\"hidden\" name=\"RelayState\" value=\"{{.RelayState}}\" />` +\n			`<input id=\"SAMLSubmitButton\" type=\"submit\" value=\"Continue\" />`", "			`<input type=\"hidden\" name=\"RelayState\" value=\"{{.Relaystate}}\" />` +\n			`<input id=\"SAMLSubmitButton\" type=\"submit\" value=\"Continue\" />`"))
+V("C16", "logout-response-to-sso", "detect", "logout response posted to the SSO URL",
+  (BL, "			URL:          sp.IdentityProviderSLOURL,\n			SAMLResponse: encodedRespBuf,\n			RelayState:   relayState,", "			URL:          sp.IdentityProviderSSOURL,\n			SAMLResponse: encodedRespBuf,\n			RelayState:   relayState,"))
+V("C16", "unquoted-action", "detect", "action attribute loses its quotes",
+  (BL, "		tmpl = template.Must(template.New(\"saml-post-form\").Parse(`<html>` +\n			`<form method=\"post\" action=\"{{.URL}}\" id=\"SAMLResponseForm\">` +\n			`<input type=\"hidden\" name=\"SAMLResponse\" value=\"{{.SAMLResponse}}\" />` +\n			`<input id=\"SAMLSubmitButton\" type=\"submit\" value=\"Continue\" />`",
+       "		tmpl = template.Must(template.New(\"saml-post-form\").Parse(`<html>` +\n			`<form method=\"post\" action={{.URL}} id=\"SAMLResponseForm\">` +\n			`<input type=\"hidden\" name=\"SAMLResponse\" value=\"{{.SAMLResponse}}\" />` +\n			`<input id=\"SAMLSubmitButton\" type=\"submit\" value=\"Continue\" />`"))
+
+# ---------------- C18
+V("C18", "half-random", "detect", "only the first 8 bytes are random",
+  (UU, "	_, err := rand.Read(u[:16])", "	_, err := rand.Read(u[:8])"))
+V("C18", "ignore-read-error", "detect", "read error ignored",
+  (UU, "	_, err := rand.Read(u[:16])\n	if err != nil {\n		panic(err)\n	}\n", "	rand.Read(u[:16])\n"))
+V("C18", "variant-typo", "detect", "variant mask typo",
+  (UU, "	u[8] = (u[8] | 0x80) & 0xBf", "	u[8] = (u[8] | 0x80) & 0x8f"))
+V("C18", "upper-hex", "detect", "upper-case hex",
+  (UU, "\"%x-%x-%x-%x-%x\"", "\"%X-%X-%X-%X-%X\""))
+V("C18", "drop-underscore", "detect", "ID may start with a digit",
+  (BL, "	logoutResponse.CreateAttr(\"ID\", \"_\"+arId.String())", "	logoutResponse.CreateAttr(\"ID\", arId.String())"))
+V("C18", "math-rand", "detect", "math/rand instead of crypto/rand",
+  (UU, "	\"crypto/rand\"\n", "	\"math/rand\"\n"))
+
+# ---------------- C19
+V("C19", "hours-as-ns", "detect", "hours not multiplied by time.Hour",
+  (SA, "Add(time.Duration(validityHours) * time.Hour)", "Add(time.Duration(validityHours))"))
+V("C19", "want-assertions-signed-inverted", "detect", "WantAssertionsSigned no longer negated",
+  (SA, "func (sp *SAMLServiceProvider) MetadataWithSLO(validityHours int64) (*types.EntityDescriptor, error) {", "func (sp *SAMLServiceProvider) MetadataWithSLO(validityHours int64) (*types.EntityDescriptor, error) {\n	_ = 0"),
+  (SA, "			WantAssertionsSigned:       !sp.SkipSignatureValidation,\n			ProtocolSupportEnumeration: SAMLProtocolNamespace,\n			KeyDescriptors: []types.KeyDescriptor{", "			WantAssertionsSigned:       sp.SkipSignatureValidation,\n			ProtocolSupportEnumeration: SAMLProtocolNamespace,\n			KeyDescriptors: []types.KeyDescriptor{"))
+V("C19", "slo-location-acs", "detect", "SLO endpoint advertises the ACS URL",
+  (SA, "				Location: sp.ServiceProviderSLOURL,", "				Location: sp.AssertionConsumerServiceURL,"))
+V("C19", "validity-wallclock", "detect", "validity from time.Now",
+  (SA, "		ValidUntil: sp.Clock.Now().UTC().Add(time.Hour * 24 * 7), // 7 days", "		ValidUntil: time.Now().UTC().Add(time.Hour * 24 * 7), // 7 days"))
+V("C19", "metadata-signing-gate", "detect", "signing descriptor gated on the deprecated accessor only",
+  (SA, "	if sp.GetSigningKey() != nil || sp.spSigningKeyStoreOverride != nil || sp.spKeyStoreOverride != nil {", "	if sp.GetSigningKey() != nil {"))
+
+# ---------------- C20 / C08
+V("C20", "predecode-tag-drift", "detect", "pre-decode reads Destination from another attribute",
+  (TR, "	Destination  string   `xml:\"Destination,attr\"`\n	Version      string   `xml:\"Version,attr\"`\n	Issuer       *Issuer  `xml:\"Issuer\"`\n}", "	Destination  string   `xml:\"Recipient,attr\"`\n	Version      string   `xml:\"Version,attr\"`\n	Issuer       *Issuer  `xml:\"Issuer\"`\n}"))
+V("C20", "predecode-reuses-object", "detect", "pre-decode target allocated once for both attempts",
+  (DR, "	var response *types.UnverifiedBaseResponse\n\n	err = maybeDeflate(raw, defaultMaxDecompressedResponseSize, func(maybeXML []byte) error {\n		response = &types.UnverifiedBaseResponse{}\n		return xml.Unmarshal(maybeXML, response)",
+       "	response := &types.UnverifiedBaseResponse{}\n\n	err = maybeDeflate(raw, defaultMaxDecompressedResponseSize, func(maybeXML []byte) error {\n		return xml.Unmarshal(maybeXML, response)"),
+  needs="compressed message whose raw DEFLATE bytes partially parse")
+V("C08", "friendlyname-tag", "detect", "FriendlyName decoded from another attribute",
+  (TR, "	FriendlyName string           `xml:\"FriendlyName,attr\"`", "	FriendlyName string           `xml:\"friendlyName,attr\"`"))
+V("C08", "getall-skips-first", "detect", "GetAll starts at index 1",
+  ("attribute.go", "		for i := 0; i < len(v.Values); i++ {", "		for i := 1; i < len(v.Values); i++ {"))
+V("C08", "sessionindex-from-instant", "detect", "SessionIndex not copied",
+  (RA, "		assertionInfo.SessionIndex = assertion.AuthnStatement.SessionIndex\n", ""))
+V("C08", "values-last-attribute-only", "detect", "attributes keyed by FriendlyName",
+  (RA, "			assertionInfo.Values[attribute.Name] = attribute", "			assertionInfo.Values[attribute.FriendlyName] = attribute"))
+V("C08", "benign-get-rewrite", "silent", "Get rewritten with an early return",
+  ("attribute.go", "	if v, ok := vals[k]; ok && len(v.Values) > 0 {\n		return string(v.Values[0].Value)\n	}\n	return \"\"\n}\n\n//GetSize", "	v, ok := vals[k]\n	if !ok || len(v.Values) == 0 {\n		return \"\"\n	}\n	return string(v.Values[0].Value)\n}\n\n//GetSize"))
